@@ -210,3 +210,19 @@ def write_evidence(prop, tier, seed, coverage, wall, violations, assumptions):
           "assumptions": assumptions, "wall_s": round(wall, 2), "violations": violations}
     with open(os.path.join(VERIF, "evidence", prop + ".json"), "w") as f:
         json.dump(ev, f, indent=1, sort_keys=True)
+
+
+def run_apalache(d, module, inv, length=1, timeout=600):
+    """Unbounded (SMT) check of a state invariant with Apalache; returns (ok, seconds, tail)."""
+    os.makedirs(d, exist_ok=True)
+    shutil.copy(os.path.join(SPEC, module + ".tla"), d)
+    t = time.time()
+    try:
+        p = subprocess.run(["apalache-mc", "check", "--init=Init", "--next=Next", "--inv=" + inv, "--length=%d" % length,
+                            "--out-dir=" + os.path.join(d, "_apalache-out"), module + ".tla"], cwd=d,
+                           stdout=subprocess.PIPE, stderr=subprocess.STDOUT, text=True, timeout=timeout)
+    except subprocess.TimeoutExpired:
+        raise ToolError("apalache timeout on %s" % module)
+    shutil.rmtree(os.path.join(d, "_apalache-out"), ignore_errors=True)
+    ok = "The outcome is: NoError" in p.stdout
+    return ok, time.time() - t, p.stdout[-1500:]
